@@ -20,7 +20,8 @@ import os
 
 THEOREMS = ["IstioModel.C16.MonitorTheorems", "IstioModel.C16.RuntimeTheorems", "IstioModel.C16.IndexTheorems",
             "IstioModel.C16.JoinTheorems", "IstioModel.C16.DisciplineTheorems",
-            "IstioModel.C16.JoinModelTheorems", "IstioModel.C16.Registration", "IstioModel.C16.GenTie"]
+            "IstioModel.C16.JoinModelTheorems", "IstioModel.C16.Registration", "IstioModel.C16.GenTie",
+            "IstioModel.C16.IndexGenTheorems", "IstioModel.C16.JoinInflight"]
 GEN = "IstioModel/Generated/C16RegFacts.lean"
 
 F6_FP = "krt:many:key-moves-between-parents:new-parent-first"
@@ -265,17 +266,20 @@ def run_oracle(ctx, stream):
 
 
 def run(ctx):
-    ctx.rule = ("cases = random histories (3-45 ops). Streams krt/krtf6: a primary and a fetched static collection: add/update/"
-                "delete, no-op updates, A-B-A flips, atomic Reset batches, keys moving between parents (across a barrier in krt; "
-                "without one in krtf6), objects present before the derived collection starts, early and late Register/"
-                "RegisterBatch (with and without existing state); 1-1 and 1-many transformations with 0-2 fetches (key, selects, "
-                "selectsNonEmpty, label, namespace index, generic; optional gating on the first fetch), 25% observed through a "
-                "second chained collection. Streams join/joinr: JoinCollection over 2-3 static collections with overlapping "
-                "keys (same key changed by one collection at a time between barriers in join; back to back in joinr). Stream mem: "
-                "Create/Update/Delete/Get/List/handlers on pilot/pkg/config/memory. Stream exact: one source change per step "
-                "with a barrier after each (claims may overlap when the transformation has no fetch), compared with the runtime "
-                "model step by step. Observations = List/GetKey/Index.Lookup at "
-                "quiescent points + every subscriber's stream; distinct = hash of (ops, observations); non-trivial = at least one op")
+    ctx.rule = ("cases = random histories (3-45 ops). krt/krtf6: a primary static collection and a fetched collection (static, a "
+                "derived copy, a JoinCollection of two, or two collections): add/update/delete, conditional and no-op updates, "
+                "A-B-A flips, Reset and DeleteObjects batches, keys moving between parents (across a barrier in krt, without one "
+                "in krtf6), objects present before the derived collection starts, Register/RegisterBatch early and late, with and "
+                "without existing state, on the primary, the first-level and the chained collection; NewCollection, "
+                "NewManyCollection, NewSingleton with 0-2 fetches built from 9 filter atoms (key, keys, object name, selects - also "
+                "with a nil map -, selectsNonEmpty, label, namespace index, value index, generic; optional gating), an index "
+                "present from the start and a multi-key index created late. join/joinr/joinm/joinn/joinnr: JoinCollection "
+                "(checked, unchecked, over derived collections), JoinWithMergeCollection, NestedJoinWithMergeCollection with "
+                "overlapping keys, namespace and value indexes. misc: NewStaticCollection(initial values), NewStatic.Set, FetchOne, "
+                "index.Fetch, PartialFetch, DiscardResult, UnregisterHandler. idxc: index.AsCollection and a collection grouped by "
+                "it. mem: the memory config store (two kinds). exact/joinx: the runtime models step by step (Reset batches, held "
+                "queue). Observations = List/GetKey/Index.Lookup at quiescent points + every subscriber's stream; distinct = hash "
+                "of (ops, observations); non-trivial = at least one op")
     ctx.assumptions = [
         "the derived collection's inputs are krt static collections (informer-backed collections are not exercised)",
         "the transformation function is a pure function of its input and of what it fetches (krt's contract)",
@@ -356,21 +360,27 @@ MANIFEST = {
                    "stream accepts exactly the streams that satisfy the statement's stream clause (per key a word of (Add Update* "
                    "Delete)*, Old = previous New, no duplicate add, no update/delete of an unknown key) and replay to the given "
                    "contents (monitorB_iff, sound and complete; late subscribers; per-key decomposition). (2) For an executable "
-                   "model of krt's manyCollection bookkeeping (inputs/outputs/mappings, per-key diff, Equal suppression, "
-                   "objectChanged on old OR new, changedInputKeys, index maintenance) under every interleaving of source changes "
-                   "and queue processing: at quiescence contents = transformation of the current inputs (state_correct_partial, "
-                   "under the library contract DisjointAtApply; unconditional for one-to-one collections), the emitted stream is "
-                   "well formed for early and late subscribers, dependency tracking is complete, Index.Lookup is exact; the "
-                   "statement without DisjointAtApply is refuted (key_move_witness = finding F6). (3) The contents clause is "
-                   "specContents / joinContents, recomputed in Lean for every observation of List/GetKey/Index.Lookup on real krt "
-                   "collections (static, NewCollection, NewManyCollection, chained, JoinCollection, memory config store)."),
+                   "model of krt's manyCollection bookkeeping under every interleaving of source changes and queue processing: at "
+                   "quiescence contents = transformation of the current inputs, the stream is well formed for early and late "
+                   "subscribers (registration as two steps: needed atomicity proved by a witness, the lock that provides it is a "
+                   "regenerated source fact), dependency tracking is complete, Index.Lookup is exact for any extractor and any "
+                   "creation time - under the input-level discipline Disciplined (disciplined_runOK) and unconditionally for "
+                   "one-to-one collections; the statement without it is refuted (key_move_witness = finding F6). (3) For an "
+                   "executable model of the checked join's event path: correctness with any number of events in flight under the "
+                   "discipline of the join stream (join_disciplined_correct), late registration from processedState, and the "
+                   "witnesses of finding F10. (4) The contents clause is specContents / joinContents / mergeContents ..., recomputed "
+                   "in Lean for every observation of List/GetKey/Index.Lookup on real krt collections; both runtime models are "
+                   "compared with the real collections step by step (streams exact, joinx)."),
     "level_note": ("Partial: the real goroutine scheduling of krt is observed (random histories on real collections, exact "
-                   "quiescence through a testing/synctest bubble), not proved; the runtime model processes a batch atomically. "
-                   "Trusted: Lean kernel + {propext, Classical.choice, Quot.sound}; the Go harness and its interpreter of the "
-                   "shared Transform description; the barrier discipline bookkeeping (implemented twice, Go and Lean, compared). "
-                   "Outside: informer-backed collections, mergejoin/nestedjoinmerge, DiscardResult, object augmentation, the "
-                   "reverse-index optimisation of changedInputKeys (observed only). Known findings F6 (manyCollection key move) "
-                   "and F10 (join event conversion from live state) are classified apart; F11 (join index) fixed in /repo 02571e4."),
-    "technique": "Lean 4 verified stream monitor + abstract runtime model + specification recomputed on observations of real krt collections (T-mon/T-diff)",
+                   "quiescence through a testing/synctest bubble), not proved; the runtime models process a batch atomically and "
+                   "have one delivered stream (per-handler queues are not modelled). Trusted: Lean kernel + {propext, "
+                   "Classical.choice, Quot.sound}; the Go harness and its interpreter of the shared Transform description; the "
+                   "barrier discipline bookkeeping (implemented twice, Go and Lean, compared); the go/ast fact extractor. Outside: "
+                   "informer-backed collections, RecomputeTrigger, object augmentation; the reverse-index optimisation of "
+                   "changedInputKeys and merge / nested merge joins have no Lean runtime model (specification + monitor only). "
+                   "Known findings F6 (manyCollection key move), F10 (join event conversion from live state), F13 (nested merge "
+                   "join with the outer collection changing while events are in flight) are classified apart; F11, F12, F13a "
+                   "fixed in /repo (02571e4, f69274a, 5f967bb)."),
+    "technique": "Lean 4 verified stream monitor + abstract runtime models + specification recomputed on observations of real krt collections (T-mon/T-diff/T-gen)",
     "design_ref": "DESIGN.md section 5 C16",
 }
